@@ -212,6 +212,43 @@ UNITS += [
 """),
 ]
 
+# ---- header / pack size folds of PackHeaderRef: unbounded (the iterator fold is rewritten to its definition, a loop)
+R_FOLD = Rw("", "", count=None, kind="fold", why="E.iter().fold(init, |acc, x| body) -> `let mut vacc = init; for x in E.iter() { vacc = { let acc = vacc; body } }` (definition of Iterator::fold)")
+PH = dict(wrap_open="impl<'a> PackHeaderRef<'a> {", wrap_close="}")
+UNITS += [
+    Unit(name="phr_size", file=PF, anchor="pub(crate) fn size(&self) -> u32", within="impl<'a> PackHeaderRef<'a> {", ret_name="r", **PH,
+         functions=["repofile::packfile::PackHeaderRef::size"],
+         rewrites=[R_FOLD],
+         contract="""
+    requires
+        // the header of a pack file that can exist (< 4 GiB)
+        32 + hdr_sum(self.0@, self.0@.len() as int) <= u32::MAX,
+    ensures
+        /*@header_size_is_overhead_plus_entry_lengths*/ r == 32 + hdr_sum(self.0@, self.0@.len() as int),
+""",
+         loops={1: """
+            invariant
+                32 + hdr_sum(self.0@, self.0@.len() as int) <= u32::MAX,
+                vacc == 32 + hdr_sum(self.0@, itf.index@),
+"""},
+         hints=[("loop_start", "1", "            proof { assert(self.0@[itf.index@] == *blob); lemma_hdr_sum_mono(self.0@, itf.index@ + 1, self.0@.len() as int); }")]),
+    Unit(name="phr_pack_size", file=PF, anchor="pub(crate) fn pack_size(&self) -> u32", within="impl<'a> PackHeaderRef<'a> {", ret_name="r", **PH,
+         functions=["repofile::packfile::PackHeaderRef::pack_size"],
+         rewrites=[R_FOLD],
+         contract="""
+    requires
+        36 + sum_len(self.0@, self.0@.len() as int) + hdr_sum(self.0@, self.0@.len() as int) <= u32::MAX,
+    ensures
+        /*@pack_size_is_blobs_plus_header_plus_length_field*/ r == 36 + sum_len(self.0@, self.0@.len() as int) + hdr_sum(self.0@, self.0@.len() as int),
+""",
+         loops={1: """
+            invariant
+                36 + sum_len(self.0@, self.0@.len() as int) + hdr_sum(self.0@, self.0@.len() as int) <= u32::MAX,
+                vacc == 36 + sum_len(self.0@, itf.index@) + hdr_sum(self.0@, itf.index@),
+"""},
+         hints=[("loop_start", "1", "            proof { assert(self.0@[itf.index@] == *blob); lemma_hdr_sum_mono(self.0@, itf.index@ + 1, self.0@.len() as int); }")]),
+]
+
 KANI = [
     Harness("repofile::packfile::verif_kani::c08_bounded_header_sizes", kind="bounded",
             bound="blob lists of length 1 or 2; ids, lengths (< 1e6), compressed/uncompressed mix and types symbolic",
